@@ -205,7 +205,8 @@ func h2Run(e *env) {
 	idx := 0
 	e.eachCase(func(raw json.RawMessage) {
 		var c struct {
-			H []h2Act `json:"h"`
+			H   []h2Act `json:"h"`
+			Dir string  `json:"dir"` // "" = by index
 		}
 		if err := json.Unmarshal(raw, &c); err != nil {
 			fatal("bad case: %v", err)
@@ -221,7 +222,19 @@ func h2Run(e *env) {
 			if i%2 == 1 {
 				dir = "s2c"
 			}
+			if c.Dir != "" {
+				dir = c.Dir
+			}
 			res, evs := h2Scenario1(e.seed, i, dir, c.H, ca, cert)
+			// a scenario in which the known PUSH_PROMISE + CONTINUATION finding has ended the direction is judged by the
+			// direct checks alone: in the trace it would only keep every later scenario from being validated
+			if res["ok"] != true && dir == "s2c" {
+				for _, a := range c.H {
+					if a.A == "push_open" {
+						evs, res["untraced"] = nil, true
+					}
+				}
+			}
 			if traceF != nil && evs != nil {
 				tmu.Lock()
 				b, _ := json.Marshal(map[string]any{"ev": "reset", "idx": i, "dir": dir})
@@ -446,7 +459,7 @@ func h2Scenario1(seed int64, idx int, dir string, acts []h2Act, ca *harnessCA, c
 	var openFields []hpack.HeaderField
 	var openRest []byte
 	var openS uint32
-	var openES bool
+	var openES, openPush bool
 	for _, a := range acts {
 		switch a.A {
 		case "data":
@@ -519,6 +532,16 @@ func h2Scenario1(seed int64, idx int, dir string, acts []h2Act, ca *harnessCA, c
 			err = A.fr.WriteHeaders(http2.HeadersFrameParam{StreamID: a.S, BlockFragment: blk[:cut], EndStream: a.Es, EndHeaders: false, Priority: h2Prio(a.Pad, hdrN)})
 			A.wmu.Unlock()
 		case "cont":
+			if openPush {
+				sc.log("a_cont")
+				A.wmu.Lock()
+				err = A.fr.WriteContinuation(openS, true, openRest)
+				A.wmu.Unlock()
+				openPush = false
+				flushAcks()
+				sc.silence(25*time.Millisecond, time.Second)
+				continue
+			}
 			if openFields == nil {
 				continue
 			}
@@ -553,9 +576,29 @@ func h2Scenario1(seed int64, idx int, dir string, acts []h2Act, ca *harnessCA, c
 			bmu.Lock()
 			expPush[a.S] = append(expPush[a.S], pushExp{uint32(a.N), fields})
 			bmu.Unlock()
-			sc.log("a_push", "s", int(a.S), "n", a.N)
+			sc.log("a_push", "s", int(a.S), "n", a.N, "open", false)
 			A.wmu.Lock()
 			err = A.fr.WritePushPromise(http2.PushPromiseParam{StreamID: a.S, PromiseID: uint32(a.N), BlockFragment: blk, EndHeaders: true})
+			A.wmu.Unlock()
+		case "push_open":
+			// a PUSH_PROMISE whose header block is completed by a CONTINUATION frame
+			if dir != "s2c" {
+				continue
+			}
+			hdrN++
+			fields := h2Fields("push", hdrN, false)
+			blk := A.encode(fields)
+			cut := len(blk) / 2
+			bmu.Lock()
+			expPush[a.S] = append(expPush[a.S], pushExp{uint32(a.N), fields})
+			bmu.Unlock()
+			openRest, openS, openPush = blk[cut:], a.S, true
+			sc.log("a_push", "s", int(a.S), "n", a.N, "open", true)
+			amu.Lock()
+			inBlock = true
+			amu.Unlock()
+			A.wmu.Lock()
+			err = A.fr.WritePushPromise(http2.PushPromiseParam{StreamID: a.S, PromiseID: uint32(a.N), BlockFragment: blk[:cut], EndHeaders: false})
 			A.wmu.Unlock()
 		case "prio":
 			sc.log("a_prio", "s", int(a.S))
@@ -665,6 +708,13 @@ func h2Scenario1(seed int64, idx int, dir string, acts []h2Act, ca *harnessCA, c
 		}
 		sc.silence(25*time.Millisecond, time.Second)
 	}
+	if openPush {
+		sc.log("a_cont")
+		A.wmu.Lock()
+		A.fr.WriteContinuation(openS, true, openRest)
+		A.wmu.Unlock()
+		flushAcks()
+	}
 	if openFields != nil {
 		// a header block must be completed before anything else can be said about the connection
 		bmu.Lock()
@@ -679,6 +729,31 @@ func h2Scenario1(seed int64, idx int, dir string, acts []h2Act, ca *harnessCA, c
 	}
 	sc.silence(150*time.Millisecond, 3*time.Second)
 	sc.log("quiet")
+	// after a PUSH_PROMISE that was completed by CONTINUATION: is the direction still there? (a probe after "quiet",
+	// outside the trace: a PING, which waits for no window)
+	for _, a := range acts {
+		if a.A == "push_open" && dir == "s2c" && !closedA {
+			probe := [8]byte{0xee, 'p', 'i', 'n', 'g', 0, 0, 7}
+			A.wmu.Lock()
+			A.fr.WritePing(false, probe)
+			A.wmu.Unlock()
+			seen := false
+			for t := 0; t < 100 && !seen; t++ {
+				time.Sleep(10 * time.Millisecond)
+				sc.mu.Lock()
+				for _, ev := range sc.evs {
+					if ev["ev"] == "b_ping" && ev["n"] == 0xee {
+						seen = true
+					}
+				}
+				sc.mu.Unlock()
+			}
+			if !seen {
+				sc.problem("C10:direction-ended: after a PUSH_PROMISE completed by CONTINUATION nothing reaches the receiver any more (a PING sent afterwards did not arrive within 1 s)")
+			}
+			break
+		}
+	}
 	if closedA {
 		// the sender is done: whatever it has sent and the receiver's credit covers must have arrived by now
 		bmu.Lock()
